@@ -78,9 +78,10 @@ pub fn comp_line(rng: &mut Rng, maxvars: usize) -> String {
     let elim = rng.perm(n);
     let vt = gen_vtree(rng, n);
     let head = format!(
-        "comp n={} order={} cnf={} pm={} e={} elim={} vtree={}",
+        "comp n={} order={} raw={} cnf={} pm={} e={} elim={} vtree={}",
         n,
         csv(&order),
+        print_raw(&raw),
         print_cnf(&cnf),
         pm_s,
         print_expr(&e),
